@@ -35,10 +35,12 @@ impl Clone for EntryChangeState { #[verifier::external_body] fn clone(&self) -> 
 //@extract EntryNew
 //@extract EntryCommitted
 //@extract EntryIncremental
+//@extract EntryInvalid
 //@extract EntrySealed
 //@extract Entry
 pub type EntrySealedCommitted = Entry<EntrySealed, EntryCommitted>;
 pub type EntryIncrementalCommitted = Entry<EntryIncremental, EntryCommitted>;
+pub type EntrySealedNew = Entry<EntrySealed, EntryNew>;
 pub type Eattrs = BTreeMap<Attribute, ValueSet>;   // entry.rs: `use std::collections::BTreeMap as Map`
 
 // ---- stand-ins ----
@@ -58,6 +60,16 @@ impl ValueSet {
 #[verifier::external_body] pub fn kvx_vs_cid(c: Cid) -> (r: ValueSet) ensures r == vs_cid_of(c) { unimplemented!() }
 #[verifier::external_body] pub fn kvx_vs_uuid(u: Uuid) -> (r: ValueSet) ensures r == vs_uuid_of(u) { unimplemented!() }
 #[verifier::external_body] pub fn kvx_vs_tombstone_class() -> (r: ValueSet) ensures r == vs_tombstone_class() { unimplemented!() }
+// conflict-entry construction (resolve_add_conflict): values, classes, fresh uuid, and the attribute edits of an invalid entry are
+// stand-ins without specification — what the conflict entry contains is not part of the contract, only whether one is made
+pub enum EntryClass { Object, Tombstone, Recycled, Conflict }
+pub enum Value { Uuid(Uuid), Class(EntryClass) }
+#[verifier::external_body] pub fn kvx_class_value(c: EntryClass) -> (r: Value) { unimplemented!() }
+#[verifier::external_body] pub fn kvx_new_v4() -> (r: Uuid) { unimplemented!() }
+impl<STATE> Entry<EntryInvalid, STATE> {
+    #[verifier::external_body] pub fn add_ava(&mut self, attr: Attribute, value: Value) { unimplemented!() }
+    #[verifier::external_body] pub fn purge_ava(&mut self, attr: Attribute) { unimplemented!() }
+}
 // &dyn SchemaTransaction: the one observer merge_state uses
 pub struct KvxSchema { pub o: u8 }
 impl KvxSchema {
@@ -141,6 +153,12 @@ pub proof fn lemma_merge_converges(lc: Map<Attribute, Cid>, rc: Map<Attribute, C
 {
     if lc.contains_key(a) && rc.contains_key(a) { lemma_cid_total(lc[a], rc[a]); assert(lc[a] == rc[a] ==> opt_get(la, a) == opt_get(ra, a)); }
 }
+// add conflict (the same uuid created independently on two replicas): the entry created FIRST survives, whichever replica decides
+pub open spec fn stored_survives(at_incoming: Cid, at_stored: Cid) -> bool { cid_lt(at_stored, at_incoming) }
+pub proof fn lemma_conflict_symmetric(x: Cid, y: Cid)
+    requires x != y
+    ensures stored_survives(x, y) != stored_survives(y, x)      // A (incoming x, stored y) keeps y  <==>  B (incoming y, stored x) drops x
+{ lemma_cid_total(x, y); }
 // deletion is absorbing and the surviving tombstone time is order independent (C09)
 pub proof fn lemma_ts_commutes(a: Cid, b: Cid) ensures cid_min(a, b) == cid_min(b, a) { lemma_cid_total(a, b); }
 
@@ -160,6 +178,7 @@ impl<STATE> Entry<EntrySealed, STATE> {
 impl Entry<EntryIncremental, EntryNew> {
 //@extract is_add_conflict
 //@extract merge_state
+//@extract resolve_add_conflict
 }
 }
 fn main(){}
